@@ -75,7 +75,19 @@ def run(ctx):
             for r in finals:
                 t = r.term
                 ok = t[0] == "call" and t[1] == "builtins.bool" and t[2] and t[2][0][0] == "method" and t[2][0][1] == "longest_matching_prefix_value"
-                ctx.ob("R1", "match/answers-bool-of-longest-prefix", ok, "HostnameTrieSet.match does not answer bool(trie.longest_matching_prefix_value(tokens)): %s" % P.show(t, maxdepth=3), site)
+
+                def match_cells():
+                    # the class interpreted: the set semantics on every order of <= 2 adds, and a strict bool as the answer
+                    from . import common_trie as T
+                    n_orders, bad = T.hostset_model_result(repo, 2, universe=["a.com", "b.a.com", "c.b.a.com", "A.COM", "x.org"])
+                    out = [("HostnameTrieSet is the set of hosts at or under the added ones on %d add orders%s" % (n_orders, "" if bad is None else ": %s" % (bad,)), bad is None)]
+                    mod_, cls_, obj = T._instantiate(repo, "classes.hostname_trie_set", "HostnameTrieSet")
+                    call = T._method_runner(repo, mod_, cls_)
+                    call(obj, "add", "a.com")
+                    got = (call(obj, "match", "http://b.a.com/x"), call(obj, "match", "http://c.org/"), call(obj, "match", ""))
+                    out.append(("match answers %r on (a stored host's sub-domain, a foreign host, no host)" % (got,), got == (True, False, False) and all(isinstance(g, bool) for g in got)))
+                    return out
+                ctx.ob("R1", "match/answers-bool-of-longest-prefix", ok, "HostnameTrieSet.match does not answer bool(trie.longest_matching_prefix_value(tokens)): %s" % P.show(t, maxdepth=3), site, cells=match_cells)
                 toks = F.find_nodes(t, F.is_call(TOK))
                 ctx.ob("R1", "match/uses-tokenize_hostname", bool(toks), "HostnameTrieSet.match does not tokenise the host with tokenize_hostname", site)
                 for tk in toks:
